@@ -427,6 +427,9 @@ void execute_member_assignment(StatementExecutor *executor,
                 "Null pointer dereference in member assignment");
         }
 
+        // 指し先が const 構造体の場合は (*ptr).member = v でも変更不可
+        AssignmentHelpers::check_const_struct_pointee(struct_var);
+
         // メンバ名を取得
         std::string member_name = member_access->name;
 
@@ -1056,6 +1059,9 @@ void execute_arrow_assignment(StatementExecutor *executor,
                     "Null pointer dereference in arrow assignment");
             }
 
+            // 指し先が const 構造体の場合は ptr->member = v でも変更不可
+            AssignmentHelpers::check_const_struct_pointee(target_var);
+
             if (debug_mode) {
                 debug_msg(DebugMsgId::GENERIC_DEBUG,
                           "[ARROW_ASSIGN] Non-generic struct: updating ");
@@ -1304,6 +1310,9 @@ void execute_arrow_assignment(StatementExecutor *executor,
         // （ポインタ変数自体には struct_members がない）
     } else {
         // 通常の構造体変数の場合
+        // 指し先が const 構造体の場合は ptr->member = v でも変更不可
+        AssignmentHelpers::check_const_struct_pointee(struct_var);
+
         // struct_membersに代入
         // v0.13.1: 参照がある場合はそれを使用
         auto &members = struct_var->get_struct_members();
